@@ -87,7 +87,8 @@ func GetRangeStart(res *http.Response) int64 {
 		return -1
 	}
 
-	re := regexp.MustCompile(`bytes (\d+)-\d+/\d+`)
+	// The complete length of the representation may be unknown ("*").
+	re := regexp.MustCompile(`bytes (\d+)-\d+/(?:\d+|\*)`)
 	matchSlice := re.FindStringSubmatch(res.Header.Get("Content-Range"))
 
 	if len(matchSlice) < 2 {
